@@ -201,9 +201,33 @@ def complete_entry(ds):
     return all(x in names for x in ("function", "input_args", "input_kwargs", "output"))
 
 
+def directed_file_cases():
+    """an interrupted first session at every persistence point of the submitting loop (writing the
+    input file) and of the worker (reading, staging, publishing), followed by a session that submits
+    the same call again and waits for it; plus the same with a dependent call"""
+    out = []
+    for ent, ks in (("F", range(0, 5)), ("P1", range(0, 11))):
+        for k in ks:
+            out.append({"mode": "file", "step_limit": 2500,
+                        "calls": [{"args": [1], "deps": [], "logical": 0}, {"args": [1], "deps": [], "logical": 0, "same_as": 1}],
+                        "sessions": [{"ops": [["submit", 1], ["result", 1], ["shutdown", True, False]], "crash": {"entity": ent, "after": k}},
+                                     {"ops": [["submit", 2], ["result", 2], ["shutdown", True, False]]}]})
+    for k in range(0, 14):
+        out.append({"mode": "file", "step_limit": 2500,
+                    "calls": [{"args": [1], "deps": [], "logical": 0}, {"args": [2], "deps": [1], "logical": 1},
+                              {"args": [1], "deps": [], "logical": 0, "same_as": 1}, {"args": [2], "deps": [3], "logical": 1, "same_as": 2}],
+                    "sessions": [{"ops": [["submit", 1], ["submit", 2], ["result", 2], ["shutdown", True, False]], "crash": {"entity": "P2", "after": k}},
+                                 {"ops": [["submit", 3], ["submit", 4], ["result", 4], ["shutdown", True, False]]}]})
+    return out
+
+
 def explore(res, n_file, n_cache):
     rng = res.rng
     cases = []
+    if n_file:
+        for c in directed_file_cases():
+            c["schedule"] = lockstep.gen_schedule(rng, 2500)
+            cases.append(("file", c))
     for _ in range(n_file):
         c = gen_file_case(rng)
         c["schedule"] = lockstep.gen_schedule(rng, 2500)
